@@ -25,6 +25,7 @@ from pycv.sym import SymBool, SymNum
 from contracts import motor as CM
 
 MOD = "gearpy.solver"
+ALLP = ("C01", "C02", "C03", "C11", "C12", "C13", "C14", "C16", "C17")
 Q = "gearpy.solver.Solver"
 Sel = z3.Select
 
@@ -124,7 +125,7 @@ class Iface:
         c.prove_in_path("pre[DCMotor.compute_torque]:duty-cycle-in-[-1,1]", z3.And(st["pwm"] >= -1, st["pwm"] <= 1))
         val = motor_law(env, st["pwm"], env.si("spd", e._i))
         u = SymUnit("Torque", idx=env.motor["Tm"].unit.idx)
-        env.store_quantity("Td", e._i, SymQ("Torque", SymNum(val / u.factor(), "float"), u))
+        env.store_quantity("Td", e._i, SymQ("Torque", SymNum(val, "float"), u))
         env.log.append(("compute_torque",))
 
     def compute_electric_current(self, e):
@@ -134,7 +135,7 @@ class Iface:
                         z3.And(e._cls() == 0, st["ecc"], z3.Not(Sel(st["Td_none"], e._i))))
         val = motor_current(env, st["pwm"], env.si("Td", e._i))
         uidx = env.motor["im"].unit.idx
-        st["cur_val"] = val / env.fac("Current", uidx)
+        st["cur_val"] = val
         st["cur_unit"] = uidx
         st["cur_none"] = z3.BoolVal(False)
         env.log.append(("compute_electric_current",))
@@ -148,7 +149,7 @@ class Iface:
         u = SymUnit("Force", idx=self.g_unit(i, z3.IntVal(1)))
         c.assume(u.factor() > 0)
         si = self.g_force(i, env.si("Td", i), env.si("Tl", i))
-        env.store_quantity("force", i, SymQ("Force", SymNum(si / u.factor(), "float"), u))
+        env.store_quantity("force", i, SymQ("Force", SymNum(si, "float"), u))
 
     def compute_bending_stress(self, e):
         env, c = self.env, sym.ctx()
@@ -158,7 +159,7 @@ class Iface:
         u = SymUnit("Stress", idx=self.g_unit(i, z3.IntVal(2)))
         c.assume(u.factor() > 0)
         si = self.g_bend(i, env.si("force", i))
-        env.store_quantity("bend", i, SymQ("Stress", SymNum(si / u.factor(), "float"), u))
+        env.store_quantity("bend", i, SymQ("Stress", SymNum(si, "float"), u))
 
     def compute_contact_stress(self, e):
         env, c = self.env, sym.ctx()
@@ -168,7 +169,7 @@ class Iface:
         u = SymUnit("Stress", idx=self.g_unit(i, z3.IntVal(3)))
         c.assume(u.factor() > 0)
         si = self.g_contact(i, env.si("force", i))
-        env.store_quantity("contact", i, SymQ("Stress", SymNum(si / u.factor(), "float"), u))
+        env.store_quantity("contact", i, SymQ("Stress", SymNum(si, "float"), u))
 
     # --- update_time_variables: one sample appended per variable the element records -----------------
     def update_time_variables(self, e):
@@ -199,9 +200,9 @@ class Iface:
         if not (isinstance(instant, SymQ) and AU.spec.BASE_KIND[instant.kind] == "Time"):
             raise TypeError("Parameter 'instant' must be an instance of 'Time'.")
         st["tlen"] = st["tlen"] + 1
-        st["tlast_val"] = sym.term_of(instant.value)
+        st["tlast_val"] = sym.term_of(instant.si())
         st["tlast_unit"] = AM.unit_idx("Time", instant.unit)
-        env.log.append(("update_time", sym.term_of(L.num(instant.si()))))
+        env.log.append(("update_time", sym.term_of(instant.si())))
 
 
 def motor_law(env, D, w):
@@ -255,7 +256,7 @@ def sync_from_solver(env, solver):
     st["locked"] = lk.term if isinstance(lk, SymBool) else z3.BoolVal(bool(lk))
     q = solver._Solver__powertrain_inertia_moment
     if isinstance(q, SymQ):
-        st["Jeq_val"] = sym.term_of(q.value)
+        st["Jeq_val"] = sym.term_of(q.si())
         st["Jeq_unit"] = AM.unit_idx("InertiaMoment", q.unit)
 
 
@@ -531,19 +532,24 @@ class Integrate(Contract):
 
 # ---- C13: lock decision ---------------------------------------------------------------------------------------------
 
+def cmp0(env, op, f, j, state):
+    """the library's comparison of field f of element j with the module constant 0 (rad/s resp. Nm)"""
+    kind = AM._kind_of_field(f)
+    lit = AU.SI_UNIT[kind]
+    uidx = Sel(state[f"{f}_unit"], j)
+    su = uidx == AM.unit_idx(kind, lit)
+    return L._b(AU.abs_cmp_si(op, Sel(state[f"{f}_val"], j), env.fac(kind, uidx), 0, su))
+
+
 def lock_rule(env, old):
     """the documented lock/release rule as a term over the state `old`"""
     st = old
     D = st["pwm"]
-    spd0 = SymQ("AngularSpeed", SymNum(Sel(st["spd_val"], 0), "float"), SymUnit("AngularSpeed", idx=Sel(st["spd_unit"], 0)))
-    zero_w = SymQ("AngularSpeed", 0, "rad/s")
-    lt0 = L._b(AU.abs_cmp("lt", spd0._tup(), zero_w._tup()))
-    gt0 = L._b(AU.abs_cmp("gt", spd0._tup(), zero_w._tup()))
+    lt0 = cmp0(env, "lt", "spd", 0, st)
+    gt0 = cmp0(env, "gt", "spd", 0, st)
     bad = z3.Or(D == 0, z3.And(D > 0, lt0), z3.And(D < 0, gt0))
-    T0 = SymQ("Torque", SymNum(Sel(st["T_val"], 0), "float"), SymUnit("Torque", idx=Sel(st["T_unit"], 0)))
-    zero_t = SymQ("Torque", 0, "Nm")
-    tgt = L._b(AU.abs_cmp("gt", T0._tup(), zero_t._tup()))
-    tlt = L._b(AU.abs_cmp("lt", T0._tup(), zero_t._tup()))
+    tgt = cmp0(env, "gt", "T", 0, st)
+    tlt = cmp0(env, "lt", "T", 0, st)
     release = z3.And(z3.Not(Sel(st["T_none"], 0)), z3.Or(z3.And(tgt, D > 0), z3.And(tlt, D < 0)))
     return z3.If(z3.And(st["self_locking"], bad), z3.BoolVal(True), z3.If(release, z3.BoolVal(False), st["locked"])), bad, release
 
@@ -755,7 +761,7 @@ def job_method(ct, extra_pre=None):
             O.prove(f"ensures[{k}]", g, props=ct.props)
         outside = frame_ok(env, old, ct.frame)
         O.prove("frame:modifies-only-" + ",".join(ct.frame[:4]) + ("..." if len(ct.frame) > 4 else ""),
-                not outside, props=ct.props, note=f"writes outside the frame: {outside}")
+                not outside, props=ALLP, note=f"writes outside the frame: {outside}")
     return Job(f"solver.{ct.name}", body, ct.props, functions=[f"{Q}.{ct.name}"], expect_covers=("returns",),
                meta=dict(family="solver-method", method=ct.name))
 
@@ -884,10 +890,8 @@ def pinst(env, old, mid_pwm_in_force):
                 ("C17", "C01", "C02")))
     # C13
     D0 = old["pwm"]
-    spd0 = SymQ("AngularSpeed", SymNum(Sel(st["spd_val"], 0), "float"), SymUnit("AngularSpeed", idx=Sel(st["spd_unit"], 0)))
-    zero_w = SymQ("AngularSpeed", 0, "rad/s")
-    lt0 = L._b(AU.abs_cmp("lt", spd0._tup(), zero_w._tup()))
-    gt0 = L._b(AU.abs_cmp("gt", spd0._tup(), zero_w._tup()))
+    lt0 = cmp0(env, "lt", "spd", 0, st)
+    gt0 = cmp0(env, "gt", "spd", 0, st)
     out.append(("lock:self-locking=>motor-never-driven-against-the-duty-cycle-in-force",
                 z3.Implies(old["self_locking"], z3.And(z3.Implies(D0 == 0, env.si("spd", 0) == 0),
                                                        z3.Implies(D0 > 0, z3.Not(lt0)), z3.Implies(D0 < 0, z3.Not(gt0)))), ("C13",)))
@@ -1102,9 +1106,10 @@ def inv_run(env, i, entry):
     d = dict(run_state_inv(env))
     d["C11:instants-counted"] = st["tlen"] == e["tlen"] + i
     # the instant recorded last: unchanged before the first iteration, then the (i-1)-th grid value in dt's unit
+    fdt = env.fac("Time", AM.unit_idx("Time", dtq.unit))
     d["C11:last-instant-is-the-grid-value"] = z3.If(
         i == 0, z3.And(st["tlast_val"] == e["tlast_val"], st["tlast_unit"] == e["tlast_unit"]),
-        z3.And(st["tlast_val"] == ar.start + z3.ToReal(i - 1) * ar.step, st["tlast_unit"] == AM.unit_idx("Time", dtq.unit)))
+        z3.And(st["tlast_val"] == (ar.start + z3.ToReal(i - 1) * ar.step) * fdt, st["tlast_unit"] == AM.unit_idx("Time", dtq.unit)))
     d["range"] = z3.And(i >= 0, i <= ar.N)
     d["C13:lock-flag-only-with-a-self-locking-mating"] = z3.Implies(z3.Not(st["self_locking"]), z3.Not(st["locked"]))
     return d
@@ -1188,7 +1193,7 @@ def job_run(fresh, with_stop, with_control):
             O.prove("fresh:initial-instant-recorded-once-before-the-loop(no stop check at the initial instant)",
                     pre_calls == ["_compute_powertrain_inertia", "update_time", "_compute_powertrain_variables"],
                     props=("C11", "C16", "C17"), note=f"{pre_calls}")
-            O.prove("fresh:time-starts-at-0", z3.And(e["tlen"] == 1, e["tlast_val"] * env.fac("Time", e["tlast_unit"]) == 0),
+            O.prove("fresh:time-starts-at-0", z3.And(e["tlen"] == 1, e["tlast_val"] == 0),
                     props=("C11",))
             # C12(b): a rerun after reset must not see the previous run's lock state
             first_vars_locked = g.get("locked_at_first_instant")
@@ -1198,10 +1203,10 @@ def job_run(fresh, with_stop, with_control):
             ch = [f for f in e.changed_since(old) if f != "Jeq"]
             O.prove("continuation:state-at-loop-entry=state-left-by-the-previous-run", not ch, props=("C12",), note=f"{ch}")
             O.prove("continuation:equivalent-inertia-recomputed-to-the-same-value",
-                    e["Jeq_val"] * env.fac("InertiaMoment", e["Jeq_unit"]) == old["Jeq_val"] * env.fac("InertiaMoment", old["Jeq_unit"]),
+                    e["Jeq_val"] == old["Jeq_val"],
                     props=("C12",))
         # grid (C11/C12): arange start/stop/step against the SI grid
-        t0 = e["tlast_val"] * env.fac("Time", e["tlast_unit"])           # SI time of the last instant before the loop
+        t0 = e["tlast_val"]                                                # SI time of the last instant before the loop
         fdt = env.fac("Time", AM.unit_idx("Time", dt.unit))
         O.prove("grid:step-is-dt", ar.step * fdt == DT, props=("C11", "C07"))
         O.prove("grid:first-new-instant-is-previous+dt(SI)", ar.start * fdt == t0 + DT, props=("C11", "C12", "C07"))
@@ -1230,16 +1235,16 @@ def job_run(fresh, with_stop, with_control):
             stf = env.state
             O.prove("grid:all-requested-instants-recorded", stf["tlen"] == e["tlen"] + ar.N, props=("C11",))
             # arithmetic cut: the facts are proved from the path, the goal from the facts alone (nlsat)
-            facts = [z3.Implies(ar.N >= 1, z3.And(stf["tlast_val"] == ar.start + (Nr - 1) * ar.step,
-                                                  env.fac("Time", stf["tlast_unit"]) == fdt)),
+            facts = [z3.Implies(ar.N >= 1, stf["tlast_val"] == (ar.start + (Nr - 1) * ar.step) * fdt),
                      ar.start * fdt == t0 + DT, ar.step * fdt == DT, z3.Implies(exactN, ar.N == K)]
             O.prove_via("grid:T=K*dt=>last-instant=previous+T-and-none-beyond", facts,
-                        z3.Implies(exactN, stf["tlast_val"] * env.fac("Time", stf["tlast_unit"]) == t0 + TT), props=("C11", "C12"))
+                        z3.Implies(exactN, stf["tlast_val"] == t0 + TT), props=("C11", "C12"))
             O.prove("grid:instants-carry-dt's-unit", z3.Implies(ar.N >= 1, stf["tlast_unit"] == AM.unit_idx("Time", dt.unit)), props=("C11",))
 
     tag = ("fresh" if fresh else "continuation") + (",stop" if with_stop else "") + (",control" if with_control else "")
     return Job(f"solver.run[{tag}]", body, props, functions=[f"{Q}.run"], expect_covers=("returns",),
-               meta=dict(family="solver-run", fresh=fresh, with_stop=with_stop, with_control=with_control))
+               meta=dict(family="solver-run", fresh=fresh, with_stop=with_stop, with_control=with_control,
+                         thorough_only=(with_stop != with_control)))
 
 
 def _props_of(name):
